@@ -436,6 +436,9 @@ func genC05(seed, index uint64, tier string) *Plan {
 		fn := g.Pick("env \"VERIF_SECRET\"", "expandenv \"$VERIF_SECRET\"", "env \"HOME\"")
 		cs.RawFiles["templates/env.yaml"] = "apiVersion: v1\nkind: ConfigMap\nmetadata:\n  name: c05-env\ndata:\n  e: {{ " + fn + " | quote }}\n"
 	}
+	if g.Chance(0.25) {
+		cs.RawFiles["templates/lookup.yaml"] = "apiVersion: v1\nkind: ConfigMap\nmetadata:\n  name: c05-lookup\ndata:\n  found: {{ lookup \"v1\" \"ConfigMap\" \"kube-system\" \"kube-root-ca.crt\" | toJson | quote }}\n  list: {{ len (lookup \"v1\" \"Secret\" \"\" \"\") | quote }}\n"
+	}
 	if g.Chance(0.3) {
 		rs.UsesDNS = true
 		cs.RawFiles["templates/dns.yaml"] = "apiVersion: v1\nkind: ConfigMap\nmetadata:\n  name: c05-dns\ndata:\n  ip: {{ getHostByName \"verif-canary.example\" | quote }}\n"
